@@ -99,6 +99,42 @@ theorem tap_model_eq_spec (H : Bytes → Bytes) (ht : UInt32) (tx : Tx) (fetch :
   rw [Lemmas.tap_cache_eq_nocache H ht tx fetch idx _ hv1]
   exact Lemmas.tap_fresh_eq_spec H ht tx fetch idx annex ext hk
 
+/-- Exported `CalcTapscriptSignaturehash` with ANY list of caller options (annex / base-tapscript
+options, any order, repeated): the digest is the BIP341/342 digest for what the caller requested --
+the last annex given, the last explicit (code separator position, leaf hash) given, defaulting to the
+hash of the leaf and the blank position. (A default appended AFTER the caller's options would break
+this theorem's model; the differential class `tap-api-options` ties the model to the code.) -/
+theorem tapscript_api_eq_spec (H : Bytes → Bytes) (ht : UInt32) (tx : Tx) (fetch : OutPoint → TxOut)
+    (idx : Nat) (leafVersion : UInt8) (script : Bytes) (caller : List TapOpt)
+    (hv1 : (scanInputs fetch tx.ins false false).2 = true) :
+    CalcTapscriptSignaturehash H (newTxSigHashes H tx fetch) ht tx idx fetch leafVersion script caller =
+      Lemmas.outOfExcept (bip341Digest H ht tx (tx.ins.map (fun i => fetch i.prev)) idx
+        (requestedAnnex (caller.map Lemmas.optView))
+        (some (requestedExt ⟨tapLeafHash H leafVersion script, 0, BLANK_CODESEP⟩
+          (caller.map Lemmas.optView)))) := by
+  unfold CalcTapscriptSignaturehash
+  have h0 : applyOpts H (.base 0xffffffff (tapHash H leafVersion script) :: caller) {} =
+      applyOpts H caller (Lemmas.normOpts H none ⟨tapLeafHash H leafVersion script, 0, BLANK_CODESEP⟩) := by
+    simp [applyOpts, applyOpt, Lemmas.normOpts, mkOpts, withBaseTapscriptVersion, Lemmas.tapHash_eq,
+      BLANK_CODESEP]
+  rw [h0, Lemmas.applyOpts_norm]
+  have hk := Lemmas.requestedExt_kv (caller.map Lemmas.optView)
+    ⟨tapLeafHash H leafVersion script, 0, BLANK_CODESEP⟩ rfl
+  have := tap_model_eq_spec H ht tx fetch idx (requestedAnnex (caller.map Lemmas.optView))
+    (some (requestedExt ⟨tapLeafHash H leafVersion script, 0, BLANK_CODESEP⟩ (caller.map Lemmas.optView)))
+    (fun e he => by cases he; exact hk) hv1
+  cases hra : requestedAnnex (caller.map Lemmas.optView) <;> simp only [hra] at this ⊢ <;>
+    simpa [Lemmas.normOpts] using this
+
+/-- Exported `CalcTaprootSignatureHash` (key path, no options) -/
+theorem taproot_api_eq_spec (H : Bytes → Bytes) (ht : UInt32) (tx : Tx) (fetch : OutPoint → TxOut)
+    (idx : Nat) (hv1 : (scanInputs fetch tx.ins false false).2 = true) :
+    CalcTaprootSignatureHash H (newTxSigHashes H tx fetch) ht tx idx fetch =
+      Lemmas.outOfExcept (bip341Digest H ht tx (tx.ins.map (fun i => fetch i.prev)) idx none none) := by
+  have := tap_model_eq_spec H ht tx fetch idx none none (fun e he => by cases he) hv1
+  simpa [CalcTaprootSignatureHash, applyOpts, mkOpts] using this
+
+
 /-- the taproot digest is defined exactly for hash types {0,1,2,3,0x81,0x82,0x83} -/
 theorem taproot_hashtype_valid_iff (ht : UInt32) :
     isValidTaprootSigHash ht = true ↔ ht ∈ validTaprootHashTypes := Lemmas.valid_iff ht
